@@ -54,6 +54,10 @@ type runObs struct {
 // standard input (intermediate refreshes happen) of a command that prints a snapshot.
 const kfPadding = "C03-snapshot-padding-history"
 
+func isSeqReduce(in c03In) bool {
+	return in.Cmd == "reduce" && len(in.Args) == 4 && strings.HasPrefix(in.Args[3], "seq=")
+}
+
 func hasRefreshVariant(in c03In) bool {
 	if in.Cmd == "analyze" {
 		return false
@@ -322,6 +326,9 @@ func mkCase(in c03In, idx int) Case {
 	if kind == 0 {
 		kn = histoNum
 	}
+	if isSeqReduce(in) {
+		kind = 6
+	}
 	outCoq := fmt.Sprintf("{| k_kind := %d; k_n := %d; k_runs := %s; k_strict := %s; k_snaps := %s |}", kind, kn, CoqList(rs), B(in.Strict), CoqList(snaps))
 	tags := []string{"cmd=" + in.Cmd, fmt.Sprintf("files=%d", len(in.Files)), fmt.Sprintf("variants=%d", len(in.Variants))}
 	for _, f := range in.Files {
@@ -378,16 +385,22 @@ func genIn(r *Rng) c03In {
 	switch cmd {
 	case "histo":
 		in.Args = []string{"-n", fmt.Sprint(histoNum)}
-		if r.Bool() {
+		switch r.Intn(5) {
+		case 0, 1:
 			in.Extract = []pipe.KPiece{{Kind: "group", Idx: 1}}
-		} else {
+		case 2, 3:
 			in.Extract = []pipe.KPiece{{Kind: "group", Idx: 1}, {Kind: "lit", Text: "\x00"}, {Kind: "group", Idx: 3}}
+		default: // more array elements than the counter consumes: the rest is ignored
+			in.Extract = []pipe.KPiece{{Kind: "group", Idx: 1}, {Kind: "lit", Text: "\x00"}, {Kind: "group", Idx: 3}, {Kind: "lit", Text: "\x00"}, {Kind: "group", Idx: 2}}
 		}
 	case "tabulate", "heatmap", "spark", "bargraph":
-		if r.Bool() {
+		switch r.Intn(5) {
+		case 0, 1:
 			in.Extract = []pipe.KPiece{{Kind: "group", Idx: 1}, {Kind: "lit", Text: "\x00"}, {Kind: "group", Idx: 2}}
-		} else {
+		case 2, 3:
 			in.Extract = []pipe.KPiece{{Kind: "group", Idx: 1}, {Kind: "lit", Text: "\x00"}, {Kind: "group", Idx: 2}, {Kind: "lit", Text: "\x00"}, {Kind: "group", Idx: 3}}
+		default: // a fourth element after the increment: ignored
+			in.Extract = []pipe.KPiece{{Kind: "group", Idx: 1}, {Kind: "lit", Text: "\x00"}, {Kind: "group", Idx: 2}, {Kind: "lit", Text: "\x00"}, {Kind: "group", Idx: 3}, {Kind: "lit", Text: "\x00"}, {Kind: "group", Idx: 1}}
 		}
 	}
 	if cmd == "spark" && r.Bool() {
@@ -402,6 +415,11 @@ func genIn(r *Rng) c03In {
 		// accumulator expressions are the three fields; two group expressions (the first may be empty)
 		in.Extract = []pipe.KPiece{{Kind: "group", Idx: 1}, {Kind: "lit", Text: "\x00"}, {Kind: "group", Idx: 2}, {Kind: "lit", Text: "\x00"}, {Kind: "group", Idx: 3}}
 		in.Args = []string{"-g", "{1}", "-g", "{2}", "-a", "total={sumi {.} {3}}", "-a", "n={sumi {.} 1}"}
+		if r.Chance(1, 3) {
+			// an order-sensitive accumulator: the increments of a group in arrival order; only with one reader at a
+			// time and one worker (every variant), several files in argument order
+			in.Args = []string{"-g", "{1}", "-a", "seq={.}{3};"}
+		}
 	}
 	nf := 1 + r.Intn(4)
 	if (cmd == "analyze" || cmd == "reduce" || cmd == "spark") && r.Bool() {
@@ -457,7 +475,7 @@ func genIn(r *Rng) c03In {
 			Readers: Pick(r, []int{1, 3}), Gomaxprocs: Pick(r, []int{1, 4, 16})}
 		// order-insensitive accumulators: the count-style aggregators and reduce with sum / count
 		// accumulators (C03_reduce_schedule_independent); analyze --extra keeps its values in arrival order
-		orderFree := cmd != "analyze"
+		orderFree := cmd != "analyze" && !isSeqReduce(in)
 		if !orderFree {
 			v.Workers, v.Readers = 1, 1
 		}
